@@ -1306,7 +1306,7 @@ func main() {
 		"Compare/ok", "Compare/TypeError", "Len/ok", "Iter/ok", "Derive/ok"}
 	for _, n := range need {
 		if cnt.byOut[n] == 0 {
-			common.Inconclusive("property=C13 vacuous run: no case of class %s was generated", n)
+			common.Vacuous("property=C13 vacuous run: no case of class %s was generated", n)
 		}
 	}
 	rep.Evaluations = cnt.apiRuns + cnt.srcRuns
